@@ -105,7 +105,8 @@ class ServicePart(IntEnum):
 
 def _split_address(string):
     if string.startswith('['):
-        end = string.find(']')
+        # The closing bracket is the last one: an IPv6 scope ID may itself contain ']'
+        end = string.rfind(']')
         if end != -1:
             if len(string) == end + 1:
                 return string[1:end], ''
